@@ -74,7 +74,7 @@ def new_function(rng, case, k):
     """a function body of 1-4 blocks: marker, optional internal branches to
     own labels, optional call of an existing function, return"""
     isa = case["isa"]
-    lines = [{"k": "mark", "imm": (0x7000 + k) if isa == "arm64"
+    lines = [{"k": "mark", "imm": (0x7000 + k) if isa in ("arm64", "mips32")
               else gen_rewrite.MARK_BASE + 0x8000 + k}]
     nlab = rng.choice([0, 0, 1, 2])
     for j in range(nlab):
